@@ -19,6 +19,8 @@ from vlib import common
 from vlib.common import Run, rng_for
 
 PROP = "C10"
+LARGE_POOL = int(os.environ.get("C10_LARGE_POOL", "32"))
+LARGE_POOL_HUPS = int(os.environ.get("C10_LARGE_POOL_HUPS", "8"))
 RULE = ("scenario = (worker class, HUP timing vector incl. two HUPs 50 ms apart, sequence of (workers, GEN) configurations, "
         "client mix of short and 0.4-1.2 s requests from 8 concurrent clients, optionally one client reusing a single keep-alive "
         "connection, a pool of 32 workers reloaded 8 times, a HUP landing while the previous reload forks); distinct = scenario "
@@ -88,22 +90,24 @@ def keepalive_client(e4, srv, stop, klog, idx, nap):
     announced 'Connection: close', closed the connection or failed a request.  Every request carries its own tag, which the
     application writes to the phase log when it is entered for it."""
     s = None
-    n = nth = 0
+    n = nth = conn = 0
     while not stop.is_set():
         n += 1
         tag = "k%d-%d" % (idx, n)
         if s is None:
             nth = 0
+            conn += 1
             try:
                 s = e4.connect(srv.addr, 5)
             except OSError as e:
-                klog.append({"tag": tag, "outcome": "refused", "err": repr(e), "data": b"", "nth": 0,
+                klog.append({"tag": tag, "outcome": "refused", "err": repr(e), "data": b"", "nth": 0, "conn": (idx, conn),
                              "t_call": time.monotonic(), "t_done": time.monotonic()})
                 time.sleep(0.01)
                 continue
         r = e4.request(srv.addr, "/nap/%s/%s" % (nap, tag), sock=s, close=False, timeout=15)
         r["tag"] = tag
         r["nth"] = nth
+        r["conn"] = (idx, conn)
         nth += 1
         klog.append(r)
         head = r["data"].split(b"\r\n\r\n")[0].lower()
@@ -144,9 +148,14 @@ def run_scenario(run, e4, sc):
         # widen the time the master spends forking the new pool (a pre_fork hook that does work)
         conf_extra = ("def pre_fork(server, worker):\n    _ev('pre_fork', age=worker.age)\n"
                       "    import time as _t\n    _t.sleep(%s)\n    _ev('pre_fork_done', age=worker.age)\n" % sc["slow_prefork"])
+    if sc.get("leave_together"):
+        # workers that are told to leave within the same fraction of a second all leave at its end (a worker_exit hook that
+        # waits): the master then sees its children go at the same moment instead of one after the other
+        conf_extra += ("def worker_exit(server, worker):\n    import time as _t\n    _q = %s\n"
+                       "    _t.sleep(_q - (_t.monotonic() %% _q))\n" % sc["leave_together"])
     if sc.get("slow_boot"):
         # widen the window between fork() and the worker installing its own signal handlers
-        conf_extra = ("def post_fork(server, worker):\n    _ev('post_fork', age=worker.age, wpid=worker.pid)\n"
+        conf_extra += ("def post_fork(server, worker):\n    _ev('post_fork', age=worker.age, wpid=worker.pid)\n"
                       "    import time as _t\n    _t.sleep(%s)\n" % sc["slow_boot"])
     srv = e4.Server("c10", worker_class=wc, workers=gens[0][0], settings=settings, bind=sc["bind"], conf_extra=conf_extra)
     lag = e4.LagProbe()
@@ -207,6 +216,34 @@ def run_scenario(run, e4, sc):
         maxlag = lag.max_lag(since=t_hups[0])
         info["max_lag"] = round(maxlag, 3)
         # ---- client side ------------------------------------------------------------------------
+        # the client that reuses one connection: its requests are judged like everybody's, except a request sent on an already
+        # used connection that ended without a byte - that one is judged by whether the application was entered for it
+        reused_lost = [r for r in klog if r["nth"] > 0 and r["outcome"] in ("empty", "reset") and not r["data"]]
+        log = log + [r for r in klog if not any(r is x for x in reused_lost)]
+        if klog:
+            info["keepalive_requests"] = len(klog)
+            info["keepalive_connections"] = len(set(r["conn"] for r in klog))
+            run.count("keepalive_requests", len(klog))
+            run.count("keepalive_responses_on_reused_connection", sum(1 for r in klog if r["nth"] > 0 and r["outcome"] == "ok"))
+            entered = {m[4:]: (t, pid) for (t, pid, m) in srv.phases() if m.startswith("nap ")}
+            forks0 = {e["wpid"]: e["t"] for e in srv.events() if e["kind"] == "post_fork"}
+            for r in reused_lost:
+                if r["tag"] in entered:
+                    t_in, wpid = entered[r["tag"]]
+                    v.append(("request-on-kept-alive-connection-not-answered",
+                              "request number %d on a kept-alive connection, sent %.1f s after the HUP, was read (the application "
+                              "was entered for it in worker %d, forked %s the HUP, %.2f s after it was sent) and the connection "
+                              "ended %.2f s later with no byte of a response (%s; %s worker, keepalive %s, graceful_timeout %s)" % (
+                                  r["nth"] + 1, r["t_call"] - t_hups[0], wpid,
+                                  "before" if forks0.get(wpid, t_hups[0]) < t_hups[0] else "after", t_in - r["t_call"],
+                                  r["t_done"] - t_in, r["outcome"], wc, sc.get("keepalive"), graceful)))
+                else:
+                    # the connection was closed while the request travelled: nobody had started to read it
+                    run.count("keepalive_requests_unread_at_close")
+            spans = set(r["conn"] for r in klog if r["t_call"] < t_hups[0]) & set(
+                r["conn"] for r in klog if r["nth"] > 0 and r["t_call"] > t_hups[0])
+            if spans:
+                run.count("keepalive_connection_across_hup_checks")
         outcomes = {}
         overlapping = 0
         for r in log:
@@ -308,6 +345,17 @@ def run_scenario(run, e4, sc):
             v.append(("response-from-unknown-worker", "pids %s answered, live workers %s" % (sorted(pids_seen), live)))
         if overlapping == 0:
             return v, "no request overlapped a HUP", info
+        if klog and not spans:
+            return v, "no kept-alive connection was in use both before and after the HUP", info
+        if sc.get("slow_prefork") and len(t_hups) > 1:
+            # did the second HUP arrive while the first reload was forking its workers? (hook timestamps, same clock)
+            pf = sorted(e["t"] for e in srv.events() if e["kind"] == "pre_fork" and e["t"] > t_hups[0])
+            pfd = sorted(e["t"] for e in srv.events() if e["kind"] == "pre_fork_done" and e["t"] > t_hups[0])
+            n1 = gens[1][0]
+            if len(pf) >= n1 and len(pfd) >= n1 and pf[0] < t_hups[1] < pfd[n1 - 1] - 0.05:
+                run.count("hup_while_previous_reload_forks_checks")
+            else:
+                return v, "the second HUP did not arrive while the first reload was forking", info
         return v, None, info
     finally:
         stop.set()
@@ -359,6 +407,22 @@ def scenarios(tier, seed):
             # every class also sees the other timing shapes over the seeds; one extra sync scenario with 3 HUPs
             out.append({"class": "sync", "configs": [(2, 1), (3, 2), (1, 3), (2, 4)], "hup_delays": [0.7, 0.05, 0.9], "clients": 8,
                         "bind": "tcp", "kind": "three"})
+        # ---- shapes with their own generator (the scenarios above stay what they were) -----------------------------
+        r3 = rng_for(seed, "c10-shapes", rep)
+        # one client keeps a single connection busy with request after request across the reload, for longer than graceful_timeout
+        for wc in (("gevent", "eventlet") if tier == "quick" else classes):
+            out.append({"class": wc, "configs": [(r3.randint(1, 2), 1), (r3.randint(1, 2), 2)], "hup_delays": [r3.choice([0.8, 1.2])],
+                        "clients": 3, "bind": r3.choice(["tcp", "unix"]), "kind": "keepalive-client", "keepalive": 5, "graceful": 3,
+                        "keepalive_clients": 1, "nap": r3.choice([0.2, 0.3])})
+        # a large pool of idle workers that all leave at the same moment, reloaded again and again (each HUP once the previous
+        # one has replaced the pool)
+        out.append({"class": "sync", "configs": [(LARGE_POOL, g) for g in range(1, LARGE_POOL_HUPS + 2)],
+                    "hup_delays": [0.5] + [0.05] * (LARGE_POOL_HUPS - 1), "clients": 2, "client_mix": "short",
+                    "bind": r3.choice(["tcp", "unix"]), "kind": "large-pool", "wait_replaced": True,
+                    "leave_together": float(os.environ.get("C10_LT", "0.2"))})
+        # a HUP with a changed file while the previous reload is still forking its workers (slow pre_fork hook)
+        out.append({"class": r3.choice(classes), "configs": [(2, 1), (3, 2), (r3.choice([1, 2]), 3)], "hup_delays": [0.5, r3.choice([0.4, 0.6])],
+                    "clients": 4, "bind": "tcp", "kind": "hup-while-forking", "slow_prefork": 0.4})
     for i, sc in enumerate(out):
         sc["seed"] = seed
         sc["idx"] = i
@@ -375,7 +439,8 @@ def shard(sh):
         if reason is None or v:
             break
         run.count("retries_after_inconclusive")
-    run.case(json.dumps({k: sc.get(k) for k in ("class", "configs", "hup_delays", "bind", "kind", "pre_signals")}, sort_keys=True),
+    run.case(json.dumps({k: sc.get(k) for k in ("class", "configs", "hup_delays", "bind", "kind", "pre_signals", "keepalive_clients",
+                                                 "slow_prefork")}, sort_keys=True),
              nontrivial=info.get("overlapping_a_hup", 0) > 0)
     run.count("scenarios")
     run.count("class/" + sc["class"])
